@@ -26,6 +26,10 @@ type Plan struct {
 	Advances       []Advance `json:"advances,omitempty"`
 	DueDates       []DueDate `json:"due_dates,omitempty"`
 	TotalsRounding string    `json:"totals_rounding,omitempty"` // totals.rounding supplied as input
+	// Stale fills every calculated member (line sums and totals, indexes,
+	// totals.*, tax summary) with left-over values: calculation must replace
+	// them all.
+	Stale bool `json:"stale,omitempty"`
 }
 
 // Rate is an exchange rate.
@@ -236,6 +240,11 @@ func (p Plan) Doc() map[string]any {
 		if len(l.Taxes) > 0 {
 			lo["taxes"] = combos(l.Taxes)
 		}
+		if p.Stale {
+			lo["i"] = 70 + i
+			lo["sum"] = "999.99"
+			lo["total"] = "888.88"
+		}
 		lines = append(lines, lo)
 	}
 	if len(lines) > 0 {
@@ -299,10 +308,22 @@ func (p Plan) Doc() map[string]any {
 		}
 		d["payment"] = pay
 	}
-	if p.TotalsRounding != "" {
-		// totals.sum/total are required members of the structure when parsing;
+	if p.TotalsRounding != "" || p.Stale {
 		// calculation resets everything except rounding
-		d["totals"] = obj{"sum": "0", "total": "0", "total_with_tax": "0", "payable": "0", "rounding": p.TotalsRounding}
+		t := obj{"sum": "0", "total": "0", "total_with_tax": "0", "payable": "0"}
+		if p.TotalsRounding != "" {
+			t["rounding"] = p.TotalsRounding
+		}
+		if p.Stale {
+			t = obj{"sum": "111.11", "discount": "22.22", "charge": "33.33", "tax_included": "4.44", "total": "555.55", "tax": "66.66",
+				"total_with_tax": "777.77", "payable": "888.88", "advance": "9.99", "due": "10.10",
+				"taxes": obj{"sum": "66.66", "categories": []any{obj{"code": "VAT", "amount": "66.66", "surcharge": "1.11",
+					"rates": []any{obj{"key": "standard", "base": "300.00", "percent": "21%", "amount": "63.00", "surcharge": obj{"percent": "1%", "amount": "3.00"}}}}}}}
+			if p.TotalsRounding != "" {
+				t["rounding"] = p.TotalsRounding
+			}
+		}
+		d["totals"] = t
 	}
 	return d
 }
